@@ -34,6 +34,7 @@ import numpy as np
 
 from ..gen import arrays as A
 from ..gen import c25_ops as O
+from ..core.ctx import exc_label
 from ..mon.compare import compare_arrays, lazy_meta_mismatch
 
 PROP = "C25"
@@ -57,6 +58,7 @@ LEVEL_NOTE = "NumPy is the value reference; only program-visible stages are moni
 TECHNIQUE = "runtime monitoring: per-stage, per-block metadata oracle + NumPy differential over generated pipelines and a complete small space"
 CASE_TIMEOUT = 60
 
+SHORT_AXIS = "axis-of-length<=1-in-several-chunks"
 BLOCKVIEW_0D = "blocks-view:0-d-array:block-is-not-the-value"
 PENDING = {}
 
@@ -153,11 +155,12 @@ def stage_mismatch(d, whole, ctx):
     """All C25 facets of one stage.  Returns (facet, message) or None."""
     import dask
 
-    m = lazy_meta_mismatch(d, whole)
-    ctx.count("lazy_meta_checked")
-    if m:
-        return m
-    whole = np.asarray(whole)
+    if whole is not None:
+        m = lazy_meta_mismatch(d, whole)
+        ctx.count("lazy_meta_checked")
+        if m:
+            return m
+        whole = np.asarray(whole)
     numblocks = tuple(len(c) for c in d.chunks)
     idxs = list(itertools.product(*[range(n) for n in numblocks]))
     # every block is requested as an output of its own, through both access paths (one scheduler call: the shared
@@ -167,7 +170,7 @@ def stage_mismatch(d, whole, ctx):
     if d.ndim == 0:
         # one mechanism, one label: the block view of ANY 0-d array (whatever produced it)
         b = via_blocks[0]
-        if np.shape(b) != () or getattr(b, "dtype", None) != d.dtype or not _same(b, whole):
+        if np.shape(b) != () or getattr(b, "dtype", None) != d.dtype or (whole is not None and not _same(b, whole)):
             # reported once per case and NOT treated as "first failing stage": the other facets of this stage and the later
             # stages are still checked (a known finding must not mask anything else)
             if not any(v["label"] == BLOCKVIEW_0D for v in ctx.violations):
@@ -187,6 +190,8 @@ def stage_mismatch(d, whole, ctx):
             bdt = getattr(blk, "dtype", None)
             if bdt != d.dtype:
                 return ("block-dtype", "block %s (via %s) has dtype %s, lazy dtype %s" % (idx, how, bdt, d.dtype))
+        if whole is None:
+            continue
         if d.ndim == 0:
             re = np.asarray(blks[0])
         else:
@@ -222,11 +227,13 @@ def _features(step, d_prev, value_prev):
     if d_prev is not None:
         if any(_isnan(c) for cs in d_prev.chunks for c in cs):
             f.append("unknown-chunks")
+        elif any(len(cs) > 1 and sum(cs) <= 1 for cs in d_prev.chunks):
+            f.append(SHORT_AXIS)
         elif any(len(cs) > 1 and 0 in cs for cs in d_prev.chunks):
             f.append("zero-size-chunk")
     if step.get("op") == "bincount" and step.get("minlength") and np.size(value_prev) \
             and int(np.abs(value_prev).max()) >= step["minlength"]:
-        f.append("max>=minlength")
+        f = ["max>=minlength"]    # the op-specific predicate decides alone
     return "&".join(f) or "-"
 
 
@@ -281,6 +288,11 @@ def run_case(case, ctx):
                 st = steps[k - 1] if k else {"op": "from_array"}
                 feat = _features(st, stages[k - 1] if k else None, exp[k - 1] if k else x)
                 name = O.variant(st)
+                short_axis = SHORT_AXIS in feat
+                if short_axis:
+                    name, feat = "aligned-op", SHORT_AXIS   # one mechanism (unify_chunks), whatever the operation built on it
+                if "zero-length" in feat and st["op"] == "reduce" and st["fn"] in ("min", "max", "nanmax", "nanmin"):
+                    name = "reduce.minmax"             # one mechanism (chunk_min/chunk_max on empty blocks)
                 if values is not None:
                     whole = values[k]
                 else:
@@ -290,7 +302,23 @@ def run_case(case, ctx):
                         ctx.unsupported("%s: %s" % (name, ex))
                         return
                     except Exception as ex:  # noqa: BLE001
-                        ctx.exception(ex, prefix="%s:%s:compute" % (name, feat), step=st, stage=k, lazy_chunks=str(d.chunks))
+                        # No computed result for this stage.  The blocks may still be computable one by one: if they
+                        # contradict .chunks/.dtype that is a C25 witness; otherwise the failure is the operation's own
+                        # (C19-C27) and C25 does not speak (recorded, skipped).
+                        try:
+                            m = stage_mismatch(d, None, ctx)
+                        except Exception:  # noqa: BLE001
+                            m = None
+                        if m:
+                            ctx.violation("%s:%s:%s" % (name, feat, "blocks-do-not-match-chunks" if short_axis else m[0]),
+                                          m[1] + " (and the whole stage raises %s)" % exc_label(ex),
+                                          step=st, stage=k, lazy_chunks=str(d.chunks))
+                            return
+                        ctx.op("compute-refused:%s:%s" % (name, exc_label(ex)))
+                        ctx.count("compute_refused")
+                        ctx.nontrivial = ctx.nontrivial and k >= 3
+                        if k < 2:
+                            ctx.unsupported("no computed result: %s (%s): %s" % (name, feat, exc_label(ex)))
                         return
                 ctx.count("stages_checked")
                 if any(_isnan(c) for cs in d.chunks for c in cs):
@@ -298,10 +326,14 @@ def run_case(case, ctx):
                 try:
                     m = stage_mismatch(d, whole, ctx)
                 except Exception as ex:  # noqa: BLE001
-                    ctx.exception(ex, prefix="%s:%s:block-compute" % (name, feat), step=st, stage=k, lazy_chunks=str(d.chunks))
-                    return
+                    if short_axis:
+                        m = ("blocks-do-not-match-chunks", "computing the blocks one by one raises %s: %s" % (exc_label(ex), ex))
+                    else:
+                        ctx.exception(ex, prefix="%s:%s:block-compute" % (name, feat), step=st, stage=k, lazy_chunks=str(d.chunks))
+                        return
                 if m:
-                    ctx.violation("%s:%s:%s" % (name, feat, m[0]), m[1], step=st, stage=k, lazy_chunks=str(d.chunks), lazy_dtype=str(d.dtype))
+                    facet = "blocks-do-not-match-chunks" if short_axis else m[0]
+                    ctx.violation("%s:%s:%s" % (name, feat, facet), m[1], step=st, stage=k, lazy_chunks=str(d.chunks), lazy_dtype=str(d.dtype))
                     return
                 # NumPy differential (catches metadata that is wrong together with the computation)
                 if k and O.inexact(st, e.dtype.kind):
@@ -327,8 +359,6 @@ def run_case(case, ctx):
                 # never as "held": the skipped fraction is bounded by FLOORS.
                 k, st, ex = build_failure
                 ctx.count("build_refused")
-                from ..core.ctx import exc_label
-
                 why = "dask could not build %s (%s): %s" % (O.variant(st), _features(st, stages[-1], exp[k - 1]), exc_label(ex))
                 ctx.op("build-refused:%s:%s" % (O.variant(st), exc_label(ex)))
                 if len(stages) < 2 or isinstance(ex, NotImplementedError):
